@@ -70,7 +70,6 @@ DupStar(C, rep(_)) == UNION {{<<y, rep(K)>> : y \in K \ {rep(K)}} : K \in DupGro
 (* prev_hash (no hash migration in the histories), memory figures, the     *)
 (* graph (a rendering of info_time).                                       *)
 (***************************************************************************)
-Rh(i) == IF "rh" \in DOMAIN i THEN i.rh ELSE FALSE
 StatusBlocks(C) ==
     LET M == IF "ix" \in DOMAIN C THEN C ELSE WithIndex(C)
         bm == AllocatedMax(C)
@@ -79,7 +78,7 @@ StatusBlocks(C) ==
           IN [pos |-> q - 1, info |-> inf.p, t |-> inf.t,
               used |-> \E d \in D : HasFile(BlockAt(M, d, q - 1)),
               unsynced |-> \E d \in D : InvalidParity(BlockAt(M, d, q - 1)),
-              bad |-> inf.p /\ inf.bad, rh |-> inf.p /\ Rh(inf), js |-> inf.p /\ inf.js]])
+              bad |-> inf.p /\ inf.bad, rh |-> inf.p /\ IsRh(inf), js |-> inf.p /\ inf.js]])
 
 ExtraFragments(f) == Card({j \in 2..Len(f.bl) : f.bl[j - 1].pos + 1 # f.bl[j].pos})
 ZeroSub(f) == f.mt[2] = 0
